@@ -8,7 +8,8 @@ mkdir -p build/sweep; rm -f build/sweep/*.res
 one() {
   S=$1; C=${S%%-*}
   out=$(tools/try_seed.sh $S $C 2>&1)
-  if echo "$out" | grep -q "does not apply"; then res="patch no longer applies to /repo HEAD (superseded by a re-based copy)"; kind="-"
+  if [ -f seeded/$S/SUPERSEDED ] && echo "$out" | grep -q "exit 0"; then res="not a violation any more: $(cat seeded/$S/SUPERSEDED)"; kind="-"
+  elif echo "$out" | grep -q "does not apply"; then res="patch no longer applies to /repo HEAD (superseded by a re-based copy)"; kind="-"
   elif echo "$out" | grep -q "exit 0"; then res="MISSED (check stayed green)"; kind="-"
   elif echo "$out" | grep -q "^VIOLATION.*replay=[^ ]*-[0-9]*\.json *$"; then res="VIOLATION"; kind="concrete failing input (oracle finding, shrunk replay)"
   elif echo "$out" | grep -q "no-failing-input-found"; then res="VIOLATION"; kind="no-failing-input-found (broken obligation / correspondence only)"
